@@ -142,6 +142,7 @@ type FDump struct {
 	KKind  string `json:"kkind"`
 	MT     string `json:"mt"`   // reference: fully-qualified message type ("" = none)
 	Node   int    `json:"node"` // dynamicgo: node id of the message descriptor (0 = none)
+	Acc    bool   `json:"acc"`  // dynamicgo: every accessor of the field's message type (the field's, its type's, its element type's) names the same descriptor
 }
 type RMsg struct {
 	Name   string  `json:"name"`
@@ -237,8 +238,12 @@ func (w *dwalk) fdump(f *dproto.FieldDescriptor) FDump {
 		elem = t.Elem()
 	}
 	d.Kind = dTypeNames[elem.Type()]
+	d.Acc = true
 	if elem.Type() == dproto.MESSAGE {
 		d.Node = w.visit(elem)
+		if !t.IsMap() {
+			d.Acc = f.Message() == elem.Message() && (!t.IsList() || t.Message() == elem.Message())
+		}
 	}
 	return d
 }
